@@ -53,7 +53,55 @@ def make_plan(rng):
     # pipe capacity under the queues: 64 KiB as on Linux, or small enough for the
     # back-pressure paths to run with these tiny payloads (a result is ~60-110 bytes)
     cap = rng.choice((65536, 65536, 4096, 512, 256, 128))
-    return {"np": np_, "calls": calls, "eq_tag": rng.randrange(1, 9), "pipe_capacity": cap}
+    plan = {"np": np_, "calls": calls, "eq_tag": rng.randrange(1, 9), "pipe_capacity": cap}
+    if rng.random() < 0.3:
+        # a second ParallelMap for another equilibrium in the same interpreter (the GUI
+        # makes a new Mesh for every "Run"; a script scans a parameter): created after
+        # `at` calls, while the first map is still alive or after it - and its
+        # equilibrium - have been deleted (the allocator may then reuse the address, see
+        # faults.AddressSim).  Later calls go to either map while both live.
+        fate = rng.choice(("alive", "alive", "deleted"))
+        plan["second"] = {"eq_tag": plan["eq_tag"] + rng.randrange(1, 9),
+                          "np": np_ if rng.random() < 0.7 else rng.choice((2, 3, 4)),
+                          "at": rng.randrange(0, ncalls + 1), "first": fate}
+        for c in calls:
+            c["map"] = rng.randrange(2)
+        if plan["second"]["at"] == ncalls or not any(c["map"] for c in calls[plan["second"]["at"]:]):
+            extra = {"tasks": [[k, [rng.randrange(1000), ncalls, k], "ok"]
+                               for k in range(rng.choice((1, 2, 3, 5)))],
+                     "scale": 1, "map": 1}
+            calls.append(extra)
+    return plan
+
+
+_PRISTINE = []
+
+
+def _fresh_interpreter_state():
+    """Every SYN run starts from the module-level / class-level state hypnotoad had when
+    the first run of this process began (procsim.StateIsolation finds the slots), as if
+    in a fresh interpreter: a run is then a pure function of (plan, choices) also on a
+    tree that keeps state between maps.  Several maps in one interpreter are part of the
+    plan instead (plan["second"])."""
+    import copy
+
+    from .procsim import StateIsolation
+
+    if not _PRISTINE:
+        import hypnotoad.utils.parallel_map  # noqa: F401
+
+        iso = StateIsolation()
+        _PRISTINE.extend((iso, iso.fork_copy()))
+    iso, store = _PRISTINE
+    fresh = []
+    for v in store:
+        if isinstance(v, iso.CONTAINERS):
+            try:
+                v = copy.deepcopy(v)
+            except Exception:  # noqa: BLE001
+                v = copy.copy(v)
+        fresh.append(v)
+    iso.install(fresh)
 
 
 def call_budget(n, np_):
@@ -67,18 +115,43 @@ def run(plan, choices, keep_log=False):
     from hypnotoad.utils.parallel_map import ParallelMap
 
     np_ = plan["np"]
-    total_budget = sum(call_budget(len(c["tasks"]), np_) for c in plan["calls"]) + 200
+    second = plan.get("second")
+    np_max = max(np_, second["np"]) if second else np_
+    total_budget = sum(call_budget(len(c["tasks"]), np_max) for c in plan["calls"]) + 200 \
+        + (400 + 40 * np_max if second else 0)
     sim = ProcSim(choices, step_cap=total_budget, keep_log=keep_log)
     sim.pipe_capacity = int(plan.get("pipe_capacity", 65536))
-    eq = syn_tasks.FakeEquilibrium(plan["eq_tag"])
+    from . import faults
+
+    _fresh_interpreter_state()
+    addr = faults.AddressSim()
+    eqs = {0: syn_tasks.FakeEquilibrium(plan["eq_tag"])}
+    pms = {}
     verdicts = []
     violation = None
-    failed_before = False
-    with sim.installed():
+    failed = {0: False, 1: False}
+    second_made = None
+    with sim.installed(), addr.installed():
         pm = None
         try:
-            pm = ParallelMap(np_, equilibrium=eq)
+            pms[0] = ParallelMap(np_, equilibrium=eqs[0])
             for ci, call in enumerate(plan["calls"]):
+                if second and 1 not in eqs and \
+                        ci >= min(second["at"], len(plan["calls"]) - 1):
+                    if second["first"] == "deleted":
+                        # the first Mesh and its equilibrium go away before the next
+                        sim.log.add(sim.steps, sim.now, "P0", "delete-map", 0)
+                        pm = eq = None
+                        del pms[0], eqs[0]
+                    eqs[1] = syn_tasks.FakeEquilibrium(second["eq_tag"])
+                    sim.log.add(sim.steps, sim.now, "P0", "create-map", 1, second["np"])
+                    pms[1] = ParallelMap(second["np"], equilibrium=eqs[1])
+                    second_made = second["first"]
+                mi = call.get("map", 0) if (second and 1 in eqs) else 0
+                if mi not in pms:
+                    mi = 1 if 1 in pms else 0
+                pm, eq, failed_before = pms[mi], eqs[mi], failed[mi]
+                np_ = plan["np"] if mi == 0 else second["np"]
                 tasks = call["tasks"]
                 expected, exc_name = syn_tasks.serial_reference(eq, ci, tasks, call["scale"])
                 args_list = [(ci, k, payload, fault) for k, payload, fault in tasks]
@@ -109,7 +182,7 @@ def run(plan, choices, keep_log=False):
                                                "call returned normally"}
                         break
                     v["type_preserved"] = outcome[1] == exc_name
-                    failed_before = True
+                    failed[mi] = True
                 else:
                     if outcome[0] == "returned":
                         if got != expected:
@@ -131,8 +204,10 @@ def run(plan, choices, keep_log=False):
                         break
         except SimAbort as e:
             violation = {"class": e.verdict, "call": -1, "detail": "while creating the map"}
-        # the caller drops its reference and the interpreter exits
-        pm = None
+        # the caller drops its references and the interpreter exits
+        pm = eq = None
+        pms.clear()
+        eqs.clear()
         if violation is None:
             try:
                 sim.interpreter_exit()
@@ -155,7 +230,9 @@ def run(plan, choices, keep_log=False):
         "events": sim.log.n,
         "steps": sim.steps,
         "sim_time_us": sim.now,
-        "stats": dict(sim.stats),
+        "stats": dict(sim.stats, address_reused=addr.reused,
+                      second_map_first_alive=int(second_made == "alive"),
+                      second_map_first_deleted=int(second_made == "deleted")),
         "signature": core.digest_of([assign, order]),
         "nontrivial": len(order) >= 2,
         "log": sim.log.lines if keep_log else None,
@@ -218,6 +295,15 @@ def candidates(cur):
                     p = _copy(plan)
                     p["calls"][ci]["tasks"][ti][2] = "exc"
                     yield (p, choices)
+    # one map only
+    if plan.get("second"):
+        p = _copy(plan)
+        del p["second"]
+        yield (p, choices)
+        if plan["second"]["np"] != plan["np"]:
+            p = _copy(plan)
+            p["second"]["np"] = plan["np"]
+            yield (p, choices)
     # fewer workers
     if plan["np"] > 2:
         p = _copy(plan)
